@@ -140,14 +140,30 @@ impl ZerokitMerkleTree for PmTree {
 
     fn new(depth: usize, _default_leaf: FrOf<Self::Hasher>, config: Self::Config) -> Result<Self> {
         let tree_loaded = pmtree::MerkleTree::load(config.clone().0);
-        let tree = match tree_loaded {
-            Ok(tree) => tree,
-            Err(_) => pmtree::MerkleTree::new(depth, config.0)?,
+        let (tree, loaded) = match tree_loaded {
+            Ok(tree) => (tree, true),
+            Err(_) => (pmtree::MerkleTree::new(depth, config.0)?, false),
         };
+
+        // The flags are not stored: for a loaded tree they are rebuilt from the leaves
+        // (a position below next_index is empty iff it holds the default leaf).
+        let mut cached_leaves_indices = vec![0; 1 << tree.depth()];
+        if loaded {
+            let default_leaf = Self::Hasher::default_leaf();
+            for (i, flag) in cached_leaves_indices
+                .iter_mut()
+                .enumerate()
+                .take(tree.leaves_set())
+            {
+                if tree.get(i).map_err(|e| Report::msg(e.to_string()))? != default_leaf {
+                    *flag = 1;
+                }
+            }
+        }
 
         Ok(PmTree {
             tree,
-            cached_leaves_indices: vec![0; 1 << depth],
+            cached_leaves_indices,
             metadata: Vec::new(),
         })
     }
